@@ -141,3 +141,83 @@ def same_minmax(a, b) -> bool:
     if ma is None or mb is None or ma[0] != mb[0]:
         return False
     return {repr(canon(x)) for x in ma[1]} == {repr(canon(x)) for x in mb[1]}
+
+
+def attribute_tables(summ, owner):
+    """Values assigned to attributes of `owner` (e.g. self) with the fill-by-loop spelling folded:
+    `self.t = {}` followed by exactly one `self.t[k] = v` in for loop(s), and no other write to self.t, is the dict
+    comprehension {k: v for ...}; likewise `self.xs = []` + one `self.xs.append(v)`.  -> {attr: value term}"""
+    from .sym import walk
+    out = {}
+    first = {}
+    for e in summ.of("store"):
+        tgt = e.term[1]
+        if tgt[0] == "attr" and tgt[1] == owner:
+            first.setdefault(tgt[2], e)
+            out[tgt[2]] = e.term[2]
+    for attr, e0 in first.items():
+        val = e0.term[2]
+        at = ("attr", owner, attr)
+        empty_dict = val == ("dict", ()) or (val[0] == "alloc" and val[1] == "dict")
+        empty_list = val == ("list", ()) or (val[0] == "alloc" and val[1] == "list")
+        if not (empty_dict or empty_list) or e0.loops:
+            continue
+        writes = [e for e in summ.events if e is not e0 and (
+            (e.kind == "store" and (e.term[1] == at or (e.term[1][0] == "sub" and e.term[1][1] == at))) or
+            (e.kind == "call" and e.term[1][0] == "attr" and e.term[1][1] == at and e.term[1][2] in
+             ("append", "extend", "update", "pop", "clear", "setdefault", "insert", "remove", "popitem")) or
+            (e.kind == "delete" and any(x == at for x in walk(e.term))))]
+        if len(writes) != 1 or not writes[0].loops or writes[0].idx < e0.idx:
+            continue
+        w = writes[0]
+        if any(summ.loops[l].kind != "for" for l in w.loops):
+            continue
+        if empty_dict and w.kind == "store" and w.term[1][0] == "sub":
+            elt = ("kv", w.term[1][2], w.term[2])
+            kind = "dict"
+        elif empty_list and w.kind == "call" and w.term[1][2] == "append" and len(w.term[2]) == 1:
+            elt = w.term[2][0]
+            kind = "list"
+        else:
+            continue
+        conds = {l: [] for l in w.loops}
+        cur = None
+        for cj in conjuncts(w.live):
+            if cj[0] == "inloop" and cj[1] in conds:
+                cur = cj[1]
+            elif cur is not None:
+                conds[cur].append(cj)
+        if any(x[0] == "phi" for x in walk(elt)):
+            continue
+        out[attr] = ("comp", kind, elt, tuple((l, summ.loops[l].iter, tuple(conds[l])) for l in w.loops))
+    return out
+
+
+def first_not_none(summ):
+    """(iterable, mapped value term, binder loop id) when the function returns the first non-None f(x) for x in the
+    iterable, and None when there is none -- in the loop spelling (`for x in it: v = f(x); if v is not None: return v`
+    / `return None`) or the next() spelling over a (possibly nested) generator."""
+    rets = summ.returns
+    # loop spelling
+    inl = [r for r in rets if r.loops]
+    out = [r for r in rets if not r.loops]
+    if len(inl) == 1 and len(inl[0].loops) == 1 and len(out) == 1 and out[0].term == NONE and summ.fall_live == ("const", False):
+        lid = inl[0].loops[0]
+        li = summ.loops[lid]
+        conds = [c for c in conjuncts(inl[0].live) if c[0] != "inloop"]
+        if li.kind == "for" and not li.conds and conds == [("cmp", "isnot", inl[0].term, NONE)] and out[0].idx > inl[0].idx:
+            others = [e for e in summ.events if lid in e.loops and e.kind not in ("call", "return")]
+            if not others:
+                return li.iter, inl[0].term, lid
+    # next() spelling
+    if len(rets) == 1 and not rets[0].loops:
+        t = rets[0].term
+        if t[0] == "call" and t[1] == ("builtin", "next") and len(t[2]) == 2 and t[2][1] == NONE and not t[3] and t[2][0][0] == "comp" \
+                and t[2][0][1] == "gen" and len(t[2][0][3]) == 1:
+            g = t[2][0]
+            lid, it, conds = g[3][0]
+            if list(conds) == [("cmp", "isnot", g[2], NONE)]:
+                if it[0] == "comp" and it[1] in ("gen", "list") and len(it[3]) == 1 and not it[3][0][2] and g[2] == ("elem", lid):
+                    return it[3][0][1], it[2], it[3][0][0]
+                return it, g[2], lid
+    return None
